@@ -8,9 +8,11 @@ package main
 // or certainly outside the lifetime are judged.
 
 import (
+	"bufio"
 	"fmt"
 	"os"
 	"strings"
+	"sync"
 	"testing"
 	"time"
 
@@ -225,6 +227,8 @@ func TestC15(t *testing.T) {
 			failf(rt, "table holds %d pins, at most %d are within lifetime or expired less than 1.5 T ago [%s]", len(dbb.backends), live, hist)
 		}
 	})
+
+	c15ProxyBoundedness(t)
 
 	// ---- lab part: the wiring (dialogTimeout, Expires, BYE / NOTIFY paths) on a real proxy
 	c15Lab(t, stdVariant{Pool: 4, Timeout: 1}, "lab")
@@ -538,4 +542,155 @@ func answerBye(s *stdSvc, l labListenCfg, d *c15Dlg, code int) error {
 	}
 	_, err := s.in.settle(bsend, 1)
 	return err
+}
+
+// ---- boundedness at proxy level -------------------------------------------------
+
+type c15RecBackend struct {
+	addr string
+	mu   sync.Mutex
+	last []byte
+}
+
+func (b *c15RecBackend) Send(msg *Message) error {
+	w, err := msg.Bytes()
+	b.mu.Lock()
+	b.last = append([]byte(nil), w...)
+	b.mu.Unlock()
+	return err
+}
+func (b *c15RecBackend) GetAddress() string { return b.addr }
+func (b *c15RecBackend) Close()             {}
+
+// c15Hook is a ServerTransport double whose GetAddress runs a function inside
+// the proxy's loop goroutine (the loop asks the transport a message came from).
+type c15Hook struct {
+	fn func()
+	ch chan struct{}
+}
+
+func (t *c15Hook) Start(MessageHandler) error       { return nil }
+func (t *c15Hook) Send(string, int, *Message) error { return nil }
+func (t *c15Hook) GetProtocol() string              { return "UDP" }
+func (t *c15Hook) GetAddress() string {
+	if t.fn != nil {
+		t.fn()
+		t.fn = nil
+		select {
+		case t.ch <- struct{}{}:
+		default:
+		}
+	}
+	return "127.0.0.77"
+}
+func (t *c15Hook) GetPort() int { return 5060 }
+func (t *c15Hook) IsExit() bool { return false }
+
+// c15ProxyBoundedness: calls that are set up through a real Proxy object in
+// their natural order (request relayed to a backend, then the backend's 200
+// pins the dialog) and never torn down, one every 40 ms for five dialog
+// timeouts of 1 s. Pins that expired more than 2.5 timeouts ago must be gone
+// from the proxy's table (ongoing traffic purges within one further period).
+func c15ProxyBoundedness(t *testing.T) {
+	t.Run("proxy-boundedness", func(t *testing.T) {
+		if (V.replay && V.only == "") || V.ViolationCount() > 0 {
+			return
+		}
+		V.Require("proxy level: expired pins of abandoned calls purged by ongoing calls")
+		for round := 0; round < V.N(1, 3); round++ {
+			p := NewProxy("svc.test", 1, "127.0.0.77", false, NewPreConfigRoute(), NewPreConfigHostResolver(), NewSelfLearnRoute(), true, true)
+			rb := NewRoundRobinBackend()
+			be := &c15RecBackend{addr: "127.0.0.81:5080"}
+			rb.AddBackend(be)
+			tr := &c15Hook{}
+			p.AddItem(&ProxyItem{backend: rb, transports: []ServerTransport{tr}})
+			patientUntil(5*time.Second, 50*time.Microsecond, func() bool { return len(p.backendChangeChannel) == 0 })
+			inLoop := func(fn func()) bool {
+				h := &c15Hook{fn: fn, ch: make(chan struct{}, 1)}
+				m := &Message{response: &StatusLine{version: "SIP/2.0", statusCode: 100, reason: "Barrier"}, headers: []*Header{}, body: []byte{}}
+				p.HandleRawMessage(NewRawMessage("127.0.0.9", 9, h, false, m))
+				_, ok := patientRecv(h.ch, 10*time.Second)
+				return ok
+			}
+			type call struct {
+				dlg  string
+				born time.Time
+			}
+			var calls []call
+			start := time.Now()
+			worstGap, last := time.Duration(0), start
+			for i := 0; time.Since(start) < 5*time.Second; i++ {
+				id := fmt.Sprintf("c15pb-%d-%d", round, i)
+				req, err := ParseMessage(bufio.NewReader(strings.NewReader(fmt.Sprintf("INVITE sip:u@svc.test SIP/2.0\r\nVia: SIP/2.0/UDP 127.0.0.9:5060;branch=z9hG4bK%s;rport\r\nFrom: <sip:a@a.example>;tag=f%s\r\nTo: <sip:u@svc.test>\r\nCall-ID: %s\r\nCSeq: 1 INVITE\r\nContent-Length: 0\r\n\r\n", id, id, id))))
+				if err != nil {
+					V.HarnessError(t, "%v", err)
+				}
+				p.HandleRawMessage(NewRawMessage("127.0.0.9", 5060, tr, true, req))
+				if !inLoop(func() {}) {
+					V.Violation(t, "", id, "proxy-level boundedness: the proxy loop did not handle the INVITE of call %d within 10 s", i)
+					return
+				}
+				be.mu.Lock()
+				relayed := be.last
+				be.last = nil
+				be.mu.Unlock()
+				rm, err := sipRead(relayed)
+				if err != nil {
+					V.Violation(t, "", id, "proxy-level boundedness: INVITE %d was not relayed to the backend (%v)", i, err)
+					return
+				}
+				resp, err := ParseMessage(bufio.NewReader(strings.NewReader(string(buildResponse(rm, 200, "OK", "t"+id, "")))))
+				if err != nil {
+					V.HarnessError(t, "%v", err)
+				}
+				dlg, err := resp.GetDialog()
+				if err != nil {
+					V.HarnessError(t, "%v", err)
+				}
+				born := time.Now()
+				p.HandleRawMessage(NewRawMessage("127.0.0.81", 5080, tr, false, resp))
+				calls = append(calls, call{dlg, born})
+				V.Eval()
+				time.Sleep(40 * time.Millisecond)
+				if g := time.Since(last); g > worstGap {
+					worstGap = g
+				}
+				last = time.Now()
+			}
+			if worstGap > 400*time.Millisecond {
+				V.Class("proxy-level boundedness round skipped (traffic gap > 0.4 s)")
+				continue
+			}
+			var stale []string
+			pinnedOnce, size := false, 0
+			now := time.Now()
+			ok := inLoop(func() {
+				size = len(p.dialogBasedBackends.backends)
+				for _, c := range calls {
+					_, present := p.dialogBasedBackends.backends[c.dlg]
+					age := now.Sub(c.born)
+					if present {
+						pinnedOnce = true
+					}
+					if present && age > 3500*time.Millisecond {
+						stale = append(stale, fmt.Sprintf("%s (pinned %v ago)", c.dlg, age.Round(10*time.Millisecond)))
+					}
+				}
+			})
+			if !ok {
+				V.Violation(t, "", nil, "proxy-level boundedness: the proxy loop did not take the inspection barrier within 10 s")
+				return
+			}
+			if !pinnedOnce {
+				V.HarnessError(t, "proxy-level boundedness: no call was ever pinned (harness wiring)")
+			}
+			V.Class("proxy level: expired pins of abandoned calls purged by ongoing calls")
+			V.NonTrivial(fmt.Sprintf("pb|%d|%d", round, len(calls)))
+			V.Sample(map[string]any{"proxy_level_calls": len(calls), "table_size_at_end": size, "worst_gap_ms": worstGap.Milliseconds()})
+			if len(stale) > 0 {
+				V.Violation(t, "", stale[:min(len(stale), 5)], "proxy-level boundedness: %d of %d abandoned calls pinned more than 3.5 dialog timeouts (1 s) ago are still in the proxy's table after continuous traffic (a call every ~40 ms, worst gap %v); table size %d; e.g. %v", len(stale), len(calls), worstGap, size, stale[:min(len(stale), 3)])
+				return
+			}
+		}
+	})
 }
